@@ -45,13 +45,17 @@ inductive Action where
   | update (set : List (Nat × Expr)) (cond : Cond)
 deriving Repr, DecidableEq
 
+/-- a unique index: its columns and, for a partial index `.. WHERE c IS NOT NULL [AND ..]`,
+    the columns its predicate requires to be non-NULL (empty = ordinary unique index) -/
+abbrev UIdx := List Nat × List Nat
+
 structure Clause where
-  target : Option (List Nat)   -- index_elements; none = no conflict target
+  target : Option UIdx   -- index_elements (+ index_where); none = no conflict target
   action : Action
 deriving Repr, DecidableEq
 
 structure Stmt where
-  uniques : List (List Nat)    -- column lists of the PRIMARY KEY / UNIQUE constraints
+  uniques : List UIdx          -- the PRIMARY KEY / UNIQUE constraints / unique (partial) indexes
   clauses : List Clause
   notNull : List Nat := []     -- NOT NULL columns (the primary key)
 deriving Repr
@@ -68,11 +72,13 @@ deriving Repr, DecidableEq
 
 def cell (r : Row) (c : Nat) : Val := r.getD c none
 
-/-- two rows collide in the unique index over columns `u` (NULLs never collide) -/
-def conflictsOn (u : List Nat) (a b : Row) : Bool :=
-  u.all (fun c => match cell a c, cell b c with
-                  | some x, some y => x == y
-                  | _, _ => false)
+/-- two rows collide in the unique index `u` (NULLs never collide; a partial index only
+    holds the rows satisfying its predicate) -/
+def conflictsOn (u : UIdx) (a b : Row) : Bool :=
+  u.1.all (fun c => match cell a c, cell b c with
+                    | some x, some y => x == y
+                    | _, _ => false)
+  && u.2.all (fun c => (cell a c).isSome && (cell b c).isSome)
 
 def eval (e : Expr) (old new : Row) (binds : List Val) : Val :=
   match e with
@@ -101,17 +107,17 @@ def holds (w : Cond) (old new : Row) (binds : List Val) : Bool :=
 def applySet (set : List (Nat × Expr)) (old new : Row) (binds : List Val) : Row :=
   set.foldl (fun acc ce => acc.set ce.1 (eval ce.2 old new binds)) old
 
-def violated (s : Stmt) (tbl : List Row) (r : Row) : List (List Nat) :=
+def violated (s : Stmt) (tbl : List Row) (r : Row) : List UIdx :=
   s.uniques.filter (fun u => tbl.any (conflictsOn u r))
 
 /-- the first clause, in the order written, that captures one of the violated constraints -/
-def pickClause (cls : List Clause) (viol : List (List Nat)) : Option Clause :=
+def pickClause (cls : List Clause) (viol : List UIdx) : Option Clause :=
   cls.find? (fun cl => match cl.target with
                        | none => true
                        | some t => viol.contains t)
 
 /-- index of the existing row colliding with `r` on `u` -/
-def findConflict (u : List Nat) (tbl : List Row) (r : Row) : Option Nat :=
+def findConflict (u : UIdx) (tbl : List Row) (r : Row) : Option Nat :=
   let i := tbl.findIdx (conflictsOn u r)
   if i < tbl.length then some i else none
 
@@ -131,7 +137,7 @@ def step (s : Stmt) (tbl : List Row) (r : Row) (binds : List Val) :
       match cl.action with
       | .nothing => .ok (tbl, none)
       | .update set w =>
-        let u := match cl.target with | some t => t | none => viol.headD []
+        let u := match cl.target with | some t => t | none => viol.headD ([], [])
         match findConflict u tbl r with
         | none => .error .constraint
         | some i =>
